@@ -51,23 +51,28 @@ LEVEL_NOTE = ("Trusted: numpy linear algebra, the harness's Kabsch and dihedral 
 
 def REQUIRED(tier):
     k = 1 if tier == "quick" else 10
-    return {
-        "reach.rmfv.antiparallel-branch": 200 * k, "reach.rmfv.rodrigues-branch": 2000 * k,
-        "contract.rmfv.image": 5000 * k, "contract.rmfv.orthogonal": 5000 * k, "contract.rmfv.proper": 5000 * k,
-        "contract.rmfa.angle": 3000 * k, "contract.rmfa.axis": 3000 * k, "contract.rmfa.sense": 1000 * k,
-        "rmfv.regime.antiparallel-exact": 100 * k, "rmfv.regime.antiparallel-near": 500 * k,
-        "rmfv.regime.branch-switch": 100 * k, "rmfv.regime.axis-aligned": 100 * k,
-        "rmfa.angle-zero": 50, "rmfa.angle-pi": 50,
-        "oracle.translate": 50, "oracle.transform": 50, "oracle.handedness": 100,
-        "oracle.substructure-rows": 100, "oracle.conformer-only": 20,
-        "oracle.ens-translate-1d": 20, "oracle.ens-translate-2d": 20, "oracle.ens-rotate": 20,
-        "oracle.ens-rotate-stack": 20, "oracle.center_at_atom": 20, "oracle.center_at_core": 20,
-        "oracle.rotate_dihedral.target": 300, "oracle.rotate_dihedral.rigid": 300,
-        "oracle.rotate_dihedral.fixed-bit-identical": 300, "oracle.dihedral-formula": 300,
-        "oracle.align-mol.achieved": 30, "oracle.align-mol.pose": 30,
-        "oracle.align-ens.achieved": 30, "oracle.align-ens.pose": 30, "kabsch.calls": 200,
-        "realistic.cdxml-molecules": 50,
+    req = {
+        "reach.rmfv.antiparallel-branch": 5000, "reach.rmfv.rodrigues-branch": 20000,
+        "contract.rmfv.image": 30000, "contract.rmfv.orthogonal": 30000, "contract.rmfv.proper": 30000,
+        "contract.rmfa.angle": 10000, "contract.rmfa.axis": 10000, "contract.rmfa.orthogonal": 10000,
+        "contract.rmfa.proper": 10000, "contract.rmfa.sense": 5000,
+        "oracle.rmfv": 20000, "oracle.rmfa": 10000,
+        "rmfv.regime.antiparallel-exact": 1000, "rmfv.regime.antiparallel-near": 5000,
+        "rmfv.regime.branch-switch": 1000, "rmfv.regime.axis-aligned": 1000, "rmfv.regime.parallel-near": 500,
+        "rmfa.angle-zero": 100, "rmfa.angle-pi": 400,
+        "oracle.translate": 100, "oracle.transform": 200, "oracle.handedness": 20000,
+        "oracle.substructure-rows": 400, "oracle.substructure-view": 400, "oracle.conformer-only": 500,
+        "oracle.ens-translate-1d": 60, "oracle.ens-translate-2d": 60, "oracle.ens-rotate": 60,
+        "oracle.ens-rotate-stack": 60, "oracle.center_at_atom": 60, "oracle.center_at_core": 60,
+        "oracle.rotate_dihedral.target": 2000, "oracle.rotate_dihedral.rigid": 2000,
+        "oracle.rotate_dihedral.fixed-bit-identical": 2000, "oracle.dihedral-formula": 2000,
+        "oracle.align-mol.achieved": 100, "oracle.align-mol.pose": 100, "oracle.align-mol.final-pose": 50,
+        "oracle.align-ens.achieved": 200, "oracle.align-ens.pose": 200, "oracle.align-ens.final-pose": 100,
+        "kabsch.calls": 1000,
     }
+    req = {name: n * k for name, n in req.items()}
+    req["realistic.cdxml-molecules"] = 50
+    return req
 
 
 TWO_PI = 2.0 * math.pi
